@@ -23,6 +23,7 @@ type c07Cfg struct {
 	Policy   int  `json:"policy"`    // 0 mandatory, 1 opportunistic, 2 none, 3 implicit
 	Auth     int  `json:"auth"`      // index into c07Auths
 	Local    bool `json:"localhost"` // configured host is a localhost name
+	HostIdx  int  `json:"host"`      // which name of the class (remote: mail.example.test or a localhost look-alike; local: localhost / 127.0.0.1)
 	Adv      bool `json:"adv"`       // STARTTLS advertised
 	STReply  int  `json:"streply"`   // 0 220, 1 454, 2 501, 3 garbage, 4 220 + injected plaintext
 	HS       int  `json:"hs"`        // 0 ok, 1 wrong-name cert, 2 untrusted cert, 3 garbage
@@ -43,9 +44,10 @@ const (
 func c07Exec(r *vf.Run, cfg c07Cfg) []finding {
 	var out []finding
 	add := func(key, f string, a ...interface{}) { out = append(out, finding{key, fmt.Sprintf(f, a...)}) }
-	host := hx.Host
+	remote := append([]string{hx.Host}, hx.LookalikeHosts...)
+	host := remote[cfg.HostIdx%len(remote)]
 	if cfg.Local {
-		host = "localhost"
+		host = []string{"localhost", "127.0.0.1"}[cfg.HostIdx%2]
 	}
 	var caps []string
 	if cfg.Adv {
@@ -249,13 +251,22 @@ func init() {
 	vf.Register(&vf.Check{
 		ID: "C07", Title: "TLS policy and credential confidentiality hold against any server",
 		Run: func(r *vf.Run) {
-			r.SetRule("the full product TLS policy {mandatory, opportunistic, none, implicit (go-mail's own TLS dialer over a loopback bridge)} × 13 auth types × host kind {localhost, other} × server behaviour {STARTTLS advertised or not; reply 220 / 454 / 501 / garbage / 220 followed by injected plaintext; handshake ok / wrong-name certificate / untrusted certificate / garbage; 7 advertised AUTH lists}, each executed with real crypto/tls handshakes where reached; oracle on the byte tap of everything the client wrote before/after the switch to TLS; distinct by configuration")
+			r.SetRule("the full product TLS policy {mandatory, opportunistic, none, implicit (go-mail's own TLS dialer over a loopback bridge)} × 13 auth types × host name {mail.example.test, five remote names that resemble loopback names (localhost.example.test, 127.0.0.1.example.test, …), localhost, 127.0.0.1} × server behaviour {STARTTLS advertised or not; reply 220 / 454 / 501 / garbage / 220 followed by injected plaintext; handshake ok / wrong-name certificate / untrusted certificate / garbage; 7 advertised AUTH lists}, each executed with real crypto/tls handshakes where reached; oracle on the byte tap of everything the client wrote before/after the switch to TLS; distinct by configuration")
 			r.Assume("a completed server-side handshake implies the client accepted the certificate (TLS 1.2/1.3 semantics)", "implicit TLS is only exercised against 127.0.0.1 (go-mail's dialer needs a real socket)")
 			var cfgs []c07Cfg
 			for pol := 0; pol < 4; pol++ {
 				for a := range c07Auths {
-					for _, local := range []bool{false, true} {
+					for hostN := 0; hostN < 8; hostN++ {
+						local := hostN >= 6
+						hostIdx := hostN
+						if local {
+							hostIdx = hostN - 6
+						}
 						if pol == 3 && !local {
+							continue
+						}
+						// look-alike names only matter where a password could travel in clear
+						if !local && hostIdx > 0 && !(c07Auths[a] == "PLAIN" || c07Auths[a] == "LOGIN" || c07Auths[a] == "AUTODISCOVER" || strings.HasPrefix(c07Auths[a], "CUSTOM")) {
 							continue
 						}
 						for al := range c07AuthLists {
@@ -264,7 +275,7 @@ func init() {
 									if !r.Thorough && (a+al+hs)%2 != 0 {
 										continue // quick: half of the (real-socket) implicit-TLS configurations
 									}
-									cfgs = append(cfgs, c07Cfg{Policy: pol, Auth: a, Local: local, HS: hs, AuthList: al})
+									cfgs = append(cfgs, c07Cfg{Policy: pol, Auth: a, Local: local, HostIdx: hostIdx, HS: hs, AuthList: al})
 									continue
 								}
 								for _, adv := range []bool{true, false} {
@@ -278,7 +289,7 @@ func init() {
 										if !adv && pol != 0 && st > 0 {
 											continue
 										}
-										cfgs = append(cfgs, c07Cfg{Policy: pol, Auth: a, Local: local, Adv: adv, STReply: st, HS: hs, AuthList: al})
+										cfgs = append(cfgs, c07Cfg{Policy: pol, Auth: a, Local: local, HostIdx: hostIdx, Adv: adv, STReply: st, HS: hs, AuthList: al})
 									}
 								}
 							}
